@@ -113,7 +113,11 @@ pub fn lookupswitch_code(default: i32, npairs: i32, pairs: &[(i32, i32)]) -> Vec
 /// bootstrap graph: `args[i]` = indices (into the list of dynamic constants) that bootstrap method i
 /// lists as arguments; constant i uses bootstrap method i; the code loads constant `root` with ldc_w.
 /// A leaf argument (usize::MAX) is an Integer constant.
-pub fn bootstrap_class(args: &[Vec<usize>], root: usize, via_indy: bool) -> Vec<u8> {
+pub fn bootstrap_class(args: &[Vec<usize>], root: usize, via_indy: bool) -> Vec<u8> { bootstrap_class_roots(args, &[root], via_indy) }
+
+/// as `bootstrap_class`; with `via_indy` the bootstrap method of the invokedynamic lists all of `roots`
+/// (usize::MAX = the Integer leaf) as its arguments, otherwise `roots[0]` is loaded with ldc_w
+pub fn bootstrap_class_roots(args: &[Vec<usize>], roots: &[usize], via_indy: bool) -> Vec<u8> {
 	let mut p = Pool::new();
 	let this = p.class("T"); let sup = p.class("java/lang/Object");
 	let (n, d, c) = (p.utf8("m"), p.utf8("()V"), p.utf8("Code"));
@@ -129,19 +133,59 @@ pub fn bootstrap_class(args: &[Vec<usize>], root: usize, via_indy: bool) -> Vec<
 		u16be(&mut b, h); u16be(&mut b, a.len() as u16);
 		for &x in a { u16be(&mut b, if x == usize::MAX { leaf } else { first + x as u16 }); }
 	}
-	// last bootstrap method: used by the invokedynamic variant, its single argument is the root constant
-	u16be(&mut b, h); u16be(&mut b, 1); u16be(&mut b, first + root as u16);
+	// last bootstrap method: used by the invokedynamic variant, its arguments are the root constants
+	u16be(&mut b, h); u16be(&mut b, roots.len() as u16);
+	for &x in roots { u16be(&mut b, if x == usize::MAX { leaf } else { first + x as u16 }); }
 	let mut code = vec![];
 	if via_indy {
 		let mnat = p.nat("call", "()V");
 		let indy = p.dynamic(18, args.len() as u16, mnat);
 		code.push(0xba); u16be(&mut code, indy); code.push(0); code.push(0);
 	} else {
-		code.push(0x13); u16be(&mut code, first + root as u16); code.push(0x57);
+		code.push(0x13); u16be(&mut code, first + roots[0] as u16); code.push(0x57);
 	}
 	code.push(0xb1);
 	let m = member(0x0009, n, d, &[attr(c, &code_body(4, 4, &code, &[], &[]))]);
 	class_file(61, &p, 0x0021, this, sup, &[], &[], &[m], &[attr(bsm_name, &b)])
+}
+
+/// Appends to `g` a shared DAG of dynamic constants whose root expands to exactly `n` constants
+/// (the root itself, every nested dynamic constant once per use, and Integer leaves), `n >= 1`;
+/// returns the index of the root.  E(node) = 1 + sum E(arguments), E(leaf) = 1, so a node listing
+/// a child of size m twice plus r leaves has size 1 + 2m + r: depth about log2(n).
+pub fn dag_exact(g: &mut Vec<Vec<usize>>, n: usize) -> usize {
+	assert!(n >= 1);
+	let node = if n == 1 { vec![] } else {
+		let (m, r) = ((n - 1) / 2, (n - 1) % 2);
+		let mut a = vec![];
+		if m >= 1 { let c = dag_exact(g, m); a.push(c); a.push(c); }
+		for _ in 0..r { a.push(usize::MAX); }
+		a
+	};
+	g.push(node);
+	g.len() - 1
+}
+
+/// One instruction whose bootstrap arguments are `parts.len()` dynamic constants expanding to
+/// `parts[i]` constants each (equal parts share one DAG).  `via_indy`: they are the arguments of the
+/// invokedynamic's bootstrap method; otherwise the arguments of one more dynamic constant that is
+/// loaded with ldc_w (which itself is not counted).  Returns (graph, roots).
+pub fn multi_root_graph(parts: &[usize], via_indy: bool) -> (Vec<Vec<usize>>, Vec<usize>) {
+	let mut g: Vec<Vec<usize>> = vec![];
+	let mut by_size: std::collections::BTreeMap<usize, usize> = Default::default();
+	let mut roots = vec![];
+	for &n in parts {
+		let r = match by_size.get(&n) { Some(&r) => r, None => { let r = dag_exact(&mut g, n); by_size.insert(n, r); r } };
+		roots.push(r);
+	}
+	if via_indy { (g, roots) } else { g.push(roots); let top = g.len() - 1; (g, vec![top]) }
+}
+/// `total` split into `k` parts: k-1 equal ones and the rest (every part >= 1)
+pub fn split_parts(total: usize, k: usize) -> Vec<usize> {
+	let each = (total / k).max(1);
+	let mut v = vec![each; k - 1];
+	v.push(total - each * (k - 1));
+	v
 }
 
 /// `k` invokedynamic instructions that all use one bootstrap method with `a` Integer arguments;
@@ -174,16 +218,59 @@ pub fn shared_bootstrap_class(k: usize, a: usize, dag: usize) -> Vec<u8> {
 	class_file(61, &p, 0x0021, this, sup, &[], &[], &[m], &[attr(bsm_name, &b)])
 }
 
+/// `aconst_null; invokeinterface I.run <desc>` — the class writer recomputes the `count` operand
+/// from the descriptor (MethodDescriptorSlice::get_arguments_size, a u8)
+pub fn invokeinterface_class(desc: &[u8]) -> Vec<u8> {
+	one_method_class(|p| {
+		let c = p.class("I");
+		let (n, d) = (p.utf8("run"), p.utf8b(desc));
+		let nat = p.idx2(12, n, d);
+		let im = p.idx2(11, c, nat);
+		let mut code = vec![0x01, 0xb9]; u16be(&mut code, im); code.extend_from_slice(&[1, 0, 0xb1]);
+		(code, vec![], vec![])
+	}, no_attrs)
+}
+/// method descriptors around the u8 limit of the argument size (1 for `this` + 2 per J/D + 1 per other)
+pub fn argument_size_descriptors() -> Vec<(String, Vec<u8>)> {
+	let rep = |s: &str, n: usize| s.repeat(n);
+	let mut v: Vec<(String, String)> = vec![];
+	for (what, unit) in [("J", "J"), ("D", "D"), ("I", "I"), ("Ljava/lang/Object;", "La;"), ("[J", "[J"), ("[[D", "[[D")] {
+		let wide = unit == "J" || unit == "D";
+		let limit = if wide { 127 } else { 254 };
+		for n in [0usize, 1, limit - 1, limit, limit + 1, limit + 2, 2 * limit, 2 * limit + 2, 1000] {
+			v.push((format!("{n} parameters {what}"), format!("({})V", rep(unit, n))));
+		}
+	}
+	v.push(("126 J + 2 I (size 255)".into(), format!("({}II)V", rep("J", 126))));
+	v.push(("126 J + 3 I (size 256)".into(), format!("({}III)V", rep("J", 126))));
+	v.push(("127 J + I (size 256)".into(), format!("({}I)V", rep("J", 127))));
+	v.push(("253 I + J (size 256)".into(), format!("({}J)V", rep("I", 253))));
+	v.push(("252 I + J (size 255)".into(), format!("({}J)V", rep("I", 252))));
+	v.push(("16000 J".into(), format!("({})V", rep("J", 16000))));
+	v.push(("65000 I".into(), format!("({})V", rep("I", 65000))));
+	v.push(("no parentheses".into(), "V".into()));
+	v.push(("unterminated".into(), format!("({}", rep("J", 200))));
+	v.push(("unterminated object".into(), "(Ljava/lang".into()));
+	v.push(("bracket before the closing parenthesis".into(), "([)V".into()));
+	v.push(("300 closing brackets counted as parameters".into(), format!("({})V", rep("[)", 300))));
+	v.push(("non-ASCII parameter".into(), format!("({}é)V", rep("J", 127))));
+	v.into_iter().map(|(a, b)| (a, b.into_bytes())).collect()
+}
+
 /// annotation attribute whose single element value nests arrays (`[`) or annotations (`@`) `depth` deep
-pub fn deep_annotation_class(attr_name: &str, depth: usize, nest_annotations: bool) -> Vec<u8> {
+pub fn deep_annotation_class(attr_name: &str, depth: usize, nest_annotations: bool) -> Vec<u8> { deep_annotation_class_mode(attr_name, depth, nest_annotations as u8) }
+/// mode 0: arrays, 1: annotations, 2: alternating starting with an array, 3: alternating starting with an annotation
+/// (the reader's recursion goes through different function pairs for each of them)
+pub fn deep_annotation_class_mode(attr_name: &str, depth: usize, mode: u8) -> Vec<u8> {
 	one_method_class(|_| (nops(0), vec![], vec![]), |p| {
 		let name = p.utf8(attr_name);
 		let (ty, el, k) = (p.utf8("LA;"), p.utf8("v"), p.int(1));
 		let mut b = vec![];
 		let is_default = attr_name == "AnnotationDefault";
 		if !is_default { u16be(&mut b, 1); u16be(&mut b, ty); u16be(&mut b, 1); u16be(&mut b, el); }
-		for _ in 0..depth {
-			if nest_annotations { b.push(b'@'); u16be(&mut b, ty); u16be(&mut b, 1); u16be(&mut b, el); } else { b.push(b'['); u16be(&mut b, 1); }
+		for i in 0..depth {
+			let annotation = match mode { 0 => false, 1 => true, 2 => i % 2 == 1, _ => i % 2 == 0 };
+			if annotation { b.push(b'@'); u16be(&mut b, ty); u16be(&mut b, 1); u16be(&mut b, el); } else { b.push(b'['); u16be(&mut b, 1); }
 		}
 		b.push(b'I'); u16be(&mut b, k);
 		vec![attr(name, &b)]
@@ -319,6 +406,13 @@ pub fn targeted(thorough: bool, out: &mut Vec<Input>) {
 			for depth in if thorough { vec![1usize, 10, 200, 2000, 20000, 200000, 1000000] } else { vec![1usize, 10, 200, 2000, 20000, 200000] } {
 				if an == "AnnotationDefault" { continue; }
 				out.push(cls(s, "deep-element-value", format!("{an}: element value nested {depth} deep ({})", if nest { "annotations" } else { "arrays" }), deep_annotation_class(an, depth, nest)));
+			}
+		}
+	}
+	for an in ["RuntimeVisibleAnnotations", "RuntimeInvisibleAnnotations"] {
+		for mode in [2u8, 3] {
+			for depth in [2usize, 10, 200, 2000, 20000, 200000] {
+				out.push(cls(s, "deep-element-value", format!("{an}: element value nested {depth} deep (arrays and annotations alternating, {} outermost)", if mode == 2 { "array" } else { "annotation" }), deep_annotation_class_mode(an, depth, mode)));
 			}
 		}
 	}
@@ -475,7 +569,7 @@ const NESTS_OK: &str = "a/B$C\ta/B\t\t\tC\t0x0008\na/B$1\ta/B\tm\t()V\t1\t10\na/
 
 fn txt(kind: u8, stream: &'static str, label: String, bytes: Vec<u8>) -> Input { Input { kind, form: Form::Raw(bytes), stream, label, shape: "", case: None } }
 
-const PIECES: [&str; 40] = ["\t", "\t\t", "\t\t\t\t\t\t\t\t", " ", "\n", "\r\n", "\r", "c", "f", "m", "p", "tiny", "2", "0", "CLASS", "FIELD", "METHOD", "ARG", "COMMENT", "ACC:", "#", "A", "a/B$C", "I", "(LA;)V", "()V", "[I", "L;", "<init>", "0", "-1", "99999999999999999999", "0x10", "0b1", "é", "😀", "\\n", "\\", "\u{0}", "\u{b}"];
+const PIECES: [&str; 50] = ["\\é", "\\€", "\\𐐀", "\\\u{301}", "\\\\", "\\\t", "é\\", "€#", "$é", "\\n\\é", "\t", "\t\t", "\t\t\t\t\t\t\t\t", " ", "\n", "\r\n", "\r", "c", "f", "m", "p", "tiny", "2", "0", "CLASS", "FIELD", "METHOD", "ARG", "COMMENT", "ACC:", "#", "A", "a/B$C", "I", "(LA;)V", "()V", "[I", "L;", "<init>", "0", "-1", "99999999999999999999", "0x10", "0b1", "é", "😀", "\\n", "\\", "\u{0}", "\u{b}"];
 
 pub fn random_text(rng: &mut Rng, lines: usize) -> Vec<u8> {
 	let mut v: Vec<u8> = vec![];
@@ -517,8 +611,10 @@ pub fn texts(rng: &mut Rng, thorough: bool, out: &mut Vec<Input>) {
 	let n = if thorough { 6000 } else { 1200 };
 	let fixtures: Vec<(u8, String)> = {
 		let mut f = vec![(K_TINY, TINY_OK.to_string()), (K_DIFF, DIFF_OK.to_string()), (K_ENIGMA, ENIGMA_OK.to_string()), (K_NESTS, NESTS_OK.to_string())];
-		for (k, p) in [(K_TINY, "/repo/quill/tests/read_file_input_tiny_v2.txt"), (K_ENIGMA, "/repo/quill/tests/read_file_input_enigma.txt"), (K_TINY, "/repo/quill/tests/remap_input.tiny"), (K_TINY, "/repo/quill/tests/merge_input_a.tiny")] {
-			if let Ok(s) = std::fs::read_to_string(p) { if s.len() < 20000 { f.push((k, s)); } }
+		// fixtures of the repository under test; a missing one is simply not used
+		let repo = std::env::var("VERIF_REPO").unwrap_or_else(|_| env!("FBH_REPO").to_string());
+		for (k, p) in [(K_TINY, "quill/tests/read_file_input_tiny_v2.txt"), (K_ENIGMA, "quill/tests/read_file_input_enigma.txt"), (K_TINY, "quill/tests/remap_input.tiny"), (K_TINY, "quill/tests/merge_input_a.tiny")] {
+			if let Ok(s) = std::fs::read_to_string(format!("{repo}/{p}")) { if s.len() < 20000 { f.push((k, s)); } }
 		}
 		f
 	};
@@ -580,6 +676,7 @@ pub fn texts(rng: &mut Rng, thorough: bool, out: &mut Vec<Input>) {
 		}
 		for (what, bytes) in shapes { out.push(txt(kind, "text-targeted", format!("{kn}: {what}"), bytes)); }
 	}
+	hostile_cells(out);
 	// descriptors / names
 	let dn = if thorough { 20000 } else { 4000 };
 	let alpha: Vec<&[u8]> = vec![b"B", b"I", b"L", b"V", b"[", b"(", b")", b";", b"/", b".", b"a", b"$", b"<", b">", "é".as_bytes(), "😀".as_bytes(), b"Ljava/lang/Object;", b"[[", b"()", b"\0"];
@@ -592,6 +689,90 @@ pub fn texts(rng: &mut Rng, thorough: bool, out: &mut Vec<Input>) {
 		("method with 70000 parameters", [b"(".to_vec(), vec![b'I'; 70_000], b")V".to_vec()].concat()), ("unterminated L of 1 MiB", [b"L".to_vec(), vec![b'a'; 1 << 20]].concat()),
 		("nested parens", b"((((I))))V".to_vec()), ("lone surrogate (as WTF-8 like bytes)", vec![b'L', 0xED, 0xA0, 0x80, b';'])] {
 		out.push(txt(K_DESC, "descriptor-targeted", format!("descriptor: {what}"), v));
+	}
+}
+
+// ------------------------------------------------------------------ escapes and multi-byte characters
+/// cells that put a backslash directly before characters of every UTF-8 width (and before a combining
+/// mark, TAB, the end of the line, another backslash), and multi-byte characters directly next to every
+/// structural character of the text formats
+pub fn backslash_cells() -> Vec<String> {
+	let wide = ["é", "€", "𐐀", "\u{301}", "e\u{301}", "\u{7ff}", "\u{800}", "\u{ffff}", "\u{10ffff}"];
+	let mut v: Vec<String> = vec![];
+	for w in wide {
+		v.push(format!("\\{w}")); v.push(format!("x\\{w}")); v.push(format!("\\{w}x")); v.push(format!("\\\\{w}")); v.push(format!("\\\\\\{w}"));
+		v.push(format!("{w}\\")); v.push(format!("\\n\\{w}")); v.push(format!("\\{w}\\{w}")); v.push(format!("\\{w}\\n")); v.push(format!("{w}\\{w}"));
+	}
+	for s in ["\\", "\\\\", "\\\\\\", "x\\", "\\\t", "\\\tx", "\\\t\\", "\\ ", "\\#", "\\\\n", "\\n", "\\r\\t\\\\", "\\é\\€\\𐐀", "\\𐐀\\€\\é\\", "see C:\\Données\\été"] { v.push(s.to_string()); }
+	for st in ["\t", " ", "#", "$", "/", ";", "[", "(", ")", "<", ":"] {
+		for w in ["é", "€", "𐐀"] {
+			v.push(format!("{w}{st}")); v.push(format!("{st}{w}")); v.push(format!("{w}{st}{w}")); v.push(format!("{st}{w}{st}"));
+		}
+	}
+	v
+}
+/// every string of at most 3 symbols over { \\ n é € 𐐀 TAB c }
+pub fn escape_exhaustive() -> Vec<String> {
+	let alpha = ["\\", "n", "é", "€", "𐐀", "\t", "c"];
+	let mut v = vec![String::new()];
+	let mut last = vec![String::new()];
+	for _ in 0..3 {
+		let mut next = vec![];
+		for s in &last { for a in alpha { next.push(format!("{s}{a}")); } }
+		v.extend(next.iter().cloned());
+		last = next;
+	}
+	v
+}
+fn hostile_cells(out: &mut Vec<Input>) {
+	let tiny = |body: String| format!("tiny\t2\t0\ta\tb\n{body}").into_bytes();
+	let diff = |body: String| format!("tiny\t2\t0\n{body}").into_bytes();
+	let tiny_levels = |c: &str| -> Vec<(&'static str, Vec<u8>)> { vec![
+		("class comment", tiny(format!("c\tA\tB\n\tc\t{c}\n"))),
+		("field comment", tiny(format!("c\tA\tB\n\tf\tI\tx\ty\n\t\tc\t{c}\n"))),
+		("method comment", tiny(format!("c\tA\tB\n\tm\t()V\tp\tq\n\t\tc\t{c}\n"))),
+		("parameter comment", tiny(format!("c\tA\tB\n\tm\t(I)V\tp\tq\n\t\tp\t0\t\targ\n\t\t\tc\t{c}\n"))),
+	] };
+	let diff_levels = |c: &str| -> Vec<(&'static str, Vec<u8>)> { vec![
+		("class comment added", diff(format!("c\tA\tX\tY\n\tc\t\t{c}\n"))),
+		("class comment removed", diff(format!("c\tA\tX\tY\n\tc\t{c}\t\n"))),
+		("class comment edited", diff(format!("c\tA\tX\tY\n\tc\t{c}\tx{c}\n"))),
+	] };
+	for c in backslash_cells() {
+		let mut all: Vec<(u8, &'static str, Vec<u8>)> = vec![];
+		for (w, b) in tiny_levels(&c) { all.push((K_TINY, w, b)); }
+		all.push((K_TINY, "class name", tiny(format!("c\t{c}\tB\n"))));
+		all.push((K_TINY, "whole line", tiny(format!("{c}\n"))));
+		all.push((K_TINY, "whole line after a tab", tiny(format!("c\tA\tB\n\t{c}\n"))));
+		all.push((K_TINY, "header namespace", format!("tiny\t2\t0\ta\t{c}\nc\tA\tB\n").into_bytes()));
+		for (w, b) in diff_levels(&c) { all.push((K_DIFF, w, b)); }
+		all.push((K_DIFF, "edited to plain", diff(format!("c\tA\tX\tY\n\tc\t{c}\tx\n"))));
+		all.push((K_DIFF, "field comment added", diff(format!("c\tA\tX\tY\n\tf\tI\tx\t\ty\n\t\tc\t\t{c}\n"))));
+		all.push((K_DIFF, "method comment removed", diff(format!("c\tA\tX\tY\n\tm\t()V\tp\tq\tr\n\t\tc\t{c}\t\n"))));
+		all.push((K_DIFF, "parameter comment edited", diff(format!("c\tA\tX\tY\n\tm\t(I)V\tp\tq\tr\n\t\tp\t0\t\t\targ\n\t\t\tc\t{c}\t{c}{c}\n"))));
+		all.push((K_DIFF, "class name", diff(format!("c\t{c}\tX\tY\n"))));
+		all.push((K_DIFF, "whole line", diff(format!("{c}\n"))));
+		all.push((K_ENIGMA, "class COMMENT", format!("CLASS A B\n\tCOMMENT {c}\n").into_bytes()));
+		all.push((K_ENIGMA, "field COMMENT", format!("CLASS A B\n\tFIELD x y I\n\t\tCOMMENT {c}\n").into_bytes()));
+		all.push((K_ENIGMA, "method COMMENT", format!("CLASS A B\n\tMETHOD p q ()V\n\t\tCOMMENT {c}\n").into_bytes()));
+		all.push((K_ENIGMA, "ARG COMMENT", format!("CLASS A B\n\tMETHOD p q (I)V\n\t\tARG 0 arg\n\t\t\tCOMMENT {c}\n").into_bytes()));
+		all.push((K_ENIGMA, "class name", format!("CLASS {c} B\n").into_bytes()));
+		all.push((K_ENIGMA, "trailing # comment", format!("CLASS A B # {c}\n").into_bytes()));
+		all.push((K_ENIGMA, "whole line", format!("{c}\n").into_bytes()));
+		all.push((K_ENIGMA, "whole line after a tab", format!("CLASS A B\n\t{c}\n").into_bytes()));
+		all.push((K_ENIGMA, "directly after COMMENT", format!("CLASS A B\n\tCOMMENT{c}\n").into_bytes()));
+		let fields = ["a/B$C", "a/B", "m", "()V", "C", "8"];
+		for i in 0..6 { let mut f: Vec<String> = fields.iter().map(|x| x.to_string()).collect(); f[i] = c.clone(); all.push((K_NESTS, "one field", format!("{}\n", f.join("\t")).into_bytes())); }
+		all.push((K_NESTS, "whole line", format!("{c}\n").into_bytes()));
+		for (k, w, b) in all { out.push(txt(k, "text-backslash-multibyte", format!("{}: {w} = {c:?}", KIND_NAMES[k as usize]), b)); }
+	}
+	for c in escape_exhaustive() {
+		let mut all: Vec<(u8, &'static str, Vec<u8>)> = vec![];
+		for (w, b) in tiny_levels(&c) { all.push((K_TINY, w, b)); }
+		for (w, b) in diff_levels(&c) { all.push((K_DIFF, w, b)); }
+		all.push((K_ENIGMA, "class COMMENT", format!("CLASS A B\n\tCOMMENT {c}\n").into_bytes()));
+		all.push((K_NESTS, "inner name", format!("a/B$C\ta/B\t\t\t{c}\t8\n").into_bytes()));
+		for (k, w, b) in all { out.push(txt(k, "text-escape-exhaustive", format!("{}: {w} = {c:?} (every string of length <= 3 over backslash, n, é, €, 𐐀, TAB, c)", KIND_NAMES[k as usize]), b)); }
 	}
 }
 
